@@ -52,7 +52,7 @@ FAULT_KINDS = {
     "C10": ["restart_via_object", "using_raises", "invalid_item", "policy_file_missing", "policy_file_unreadable", "policy_file_read_error",
             "policy_file_truncated", "policy_file_wrong_section", "policy_file_not_utf8", "restart_via_dict", "restart_via_ini",
             "restart_via_file"],
-    "C18": ["disable_twice", "bare_marker", "empty_record", "none_record", "policy_update", "restart"],
+    "C18": ["disable_twice", "bare_marker", "empty_record", "none_record", "policy_update", "restart", "neighbour_context"],
 }
 COMPONENTS = {
     "real": ["passlib.context.CryptContext / _CryptConfig (load, update, copy, to_dict, to_string, from_string, from_path, load_path, hash, "
@@ -501,7 +501,7 @@ def _gen_lifecycle_program(rng, tier):
     ops = []
     for _ in range(rng.randint(5, 30)):
         k = rng.choices(["disable", "disable_nohash", "enable", "login", "login_empty", "login_self", "login_wrong", "is_enabled",
-                         "verify_none", "policy_update", "restart", "needs_update", "add_user_scheme"], [6, 2, 5, 4, 2, 2, 2, 3, 2, 1, 1, 1, 0.6])[0]
+                         "verify_none", "policy_update", "restart", "needs_update", "add_user_scheme", "neighbour"], [6, 2, 5, 4, 2, 2, 2, 3, 2, 1, 1, 1, 0.6, 0.8])[0]
         op = {"op": k, "user": rng.randrange(len(users))}
         if k in ("disable", "enable") and rng.random() < 0.25:
             op["as_bytes"] = True  # the stored record is handed over as bytes (as read from a file or a database driver)
@@ -513,6 +513,9 @@ def _gen_lifecycle_program(rng, tier):
             op["form"] = rng.choice(["dict", "string"])
         if k == "add_user_scheme":
             op["scheme"] = rng.choice(["postgres_md5", "oracle10"])
+        if k == "neighbour":
+            op["marker"] = rng.choice(["!", "*", "*LK*", "!!", "*NP*"])
+            op["via"] = rng.choice(["context", "context", "using"])
         ops.append(op)
     return {"cfg": {"mode": "lifecycle", "policy": cfg, "disabled": disabled, "users": users, "seed": rng.getrandbits(32)}, "ops": ops}
 
